@@ -802,13 +802,12 @@ func (w *hdrWorld) observe(step int, op hdrOp, prev *hdrExp) {
 			continue
 		}
 		w.cmp("C09")
-		// ranges are kept within the reported chain: what a range reaching beyond the tip returns is
-		// not stated by the property
+		// a range that reaches beyond the tip returns the best chain's headers up to the tip and nothing else:
+		// what the header files hold above the tip (an abandoned or invalidated chain) is not part of it
 		wantN := win[1]
 		if win[0]+wantN-1 > height {
 			wantN = height - win[0] + 1
 		}
-		win[1] = wantN
 		hs, err := repo.GetHeaders(w.ctx, win[0], win[1])
 		if err != nil {
 			w.fail(w.rangeProp(op, win[0], exp), step, op, fmt.Sprintf("GetHeaders(%d,%d) err %v", win[0], win[1], err))
